@@ -101,7 +101,8 @@ def complex_case(draw, tier, mode):
     n = draw(st.integers(1, 4))
     m = draw(st.integers(1, 4))
     extra = [draw(st.integers(1, 2))] if draw(st.booleans()) else []
-    kind = draw(st.sampled_from(['dense', 'dense', 'bdiag', 'dense_then_real', 'real_then_dense']))
+    kind = draw(st.sampled_from(['dense', 'dense', 'bdiag', 'dense_then_real', 'real_then_dense', 'hom_int', 'hom_complex',
+                                 'hom_int_inv']))
     vals = st.sampled_from([-2.0, -1.0, 0.0, 0.5, 1.0, 2.0, 3.0])
     re = [[draw(vals) for _ in range(n)] for _ in range(m)]
     im = [[draw(vals) for _ in range(n)] for _ in range(m)]
@@ -127,7 +128,24 @@ def _check_complex(r, mode):
     B = np.asarray(r['re'], dtype=float) + 1j * np.asarray(r['im'], dtype=float)
     d = np.asarray(r['dre'], dtype=float) + 1j * np.asarray(r['dim'], dtype=float)
     e = int(np.prod(extra)) if extra else 1
-    if r['kind'] == 'bdiag':
+    if r['kind'].startswith('hom'):
+        from furax._base.core import HomothetyOperator
+
+        if r['kind'] == 'hom_complex':
+            v = complex(r['dre'][0], r['dim'][0])
+            op = must_not_raise('build', HomothetyOperator, v, S)
+            M = v * np.eye(n * e)
+        else:
+            # a fractional scalar on an integer structure (mv promotes to a floating dtype)
+            S = jax.ShapeDtypeStruct((n,) + extra, jnp.dtype('int32'))
+            dt = 'int32'
+            v = [0.5, 2.5, -0.25, 4.0][r['seed'] % 4]
+            op = must_not_raise('build', HomothetyOperator, v, S)
+            M = v * np.eye(n * e)
+            if r['kind'] == 'hom_int_inv':
+                op = must_not_raise('inverse', lambda: op.I)
+                M = (1.0 / v) * np.eye(n * e)
+    elif r['kind'] == 'bdiag':
         op = must_not_raise('build', DiagonalOperator if False else BroadcastDiagonalOperator, jnp.asarray(d, dtype=cdt),
                             axis_destination=0, in_structure=S)
         M = np.kron(np.diag(d), np.eye(e))
@@ -151,7 +169,13 @@ def _check_complex(r, mode):
     tol = 1e-5 * (1 + np.abs(want).max(initial=0))
     if got.shape != want.shape or np.abs(got - want).max(initial=0) > tol:
         raise Violation('complex:mv', f'op(x) = {got[:4]} but the reference gives {want[:4]}')
-    for name, f in (('as_matrix', op.as_matrix), ('generic-as_matrix', lambda: AbstractLinearOperator.as_matrix(op))):
+    forms = [('as_matrix', op.as_matrix), ('generic-as_matrix', lambda: AbstractLinearOperator.as_matrix(op))]
+    if r['kind'].startswith('hom'):
+        # a fractional scalar on an INTEGER structure (or a complex one on a real structure) is a parameter wider than the data: the operator is declared
+        # square, so its declared output dtype (int32) is not what mv returns (outside C05's domain) and the generic
+        # construction, which allocates in the declared dtype, is not judged; the class's own as_matrix is
+        forms = forms[:1]
+    for name, f in forms:
         A = np.asarray(must_not_raise('complex:' + name, f))
         if A.shape != M.shape or np.abs(A - M).max(initial=0) > 1e-5 * (1 + np.abs(M).max(initial=0)):
             raise Violation('complex:' + name, f'{name}() differs from the matrix of basis applications (complex coefficients on {dt} input): '
